@@ -261,6 +261,26 @@ def run_shard(shard):
                     i = int(np.where(nt)[0][0])
                     rec.samples.append(jsonable({"distribution": meta["name"], "param_mode": mode, "x": xs[i], "log_prob": lp[i],
                                                  "base_log_prob_at_inverse_image": blp[i], "inverse_log_det": ld[i]}))
+            # ---------------- (a') the distribution methods cast their inputs to floating point: integer-valued points handed over
+            # as integer arrays have the log_prob of the same numbers (the bijections underneath write into / loop over x)
+            if has_inv and not numeric and mode[1] == 0.5:
+                for _ in range(2):
+                    xi = rng.integers(-3, 4, size=meta["shape"])
+                    ci = None if cs is None else cs[0]
+                    try:
+                        l_f = float(d.log_prob(jnp.asarray(xi, dtype=float), ci))
+                        l_i = float(d.log_prob(jnp.asarray(xi, dtype=int), ci))
+                        l_n = float(d.log_prob(np.asarray(xi, dtype=np.int32), ci))
+                    except Exception as e:  # noqa: BLE001
+                        viol(f"exception.{type(e).__name__}", f"log_prob of an integer-typed x raised {type(e).__name__}: {str(e)[:200]}", {"x": xi})
+                        break
+                    rec.evals += 1
+                    rec.count("integer_typed_logprob_calls")
+                    same = lambda a, b_: (a == b_) or (np.isnan(a) and np.isnan(b_)) or abs(a - b_) <= 1e-9 * (1 + abs(b_))
+                    if not (same(l_i, l_f) and same(l_n, l_f)):
+                        viol("change_of_variables.integer_input", f"log_prob of the integer array {np.asarray(xi).tolist()} is {l_i!r} (NumPy int32: {l_n!r}) but {l_f!r} for the same "
+                                                                  f"numbers as floats", {"x": xi})
+                        break
             # ---------------- (b), (c) sampling paths
             if not has_fwd:
                 rec.count("sampling_not_implemented")
